@@ -307,6 +307,55 @@ Proof.
   - apply (unique_image_transfer m d q ys dist E E' pe pe'); assumption.
 Qed.
 
+(* ================================================================ positive factors on the image *)
+(* ---- a positive factor on the whole image (e.g. on the column's u) does not reach the row ---- *)
+Lemma gvadd_scale : forall t a b, gvadd R Rplus (map (Rmult t) a) (map (Rmult t) b) = map (Rmult t) (gvadd R Rplus a b).
+Proof. intros t. induction a as [|x a IH]; intros [|y b]; simpl; try reflexivity. rewrite IH. f_equal. ring. Qed.
+
+Lemma sink_image_row_scale : forall t ui Ki v vectors acc,
+  sink_image_row R 0 Rplus Rmult Reqb (t * ui) Ki v vectors (map (Rmult t) acc)
+  = map (Rmult t) (sink_image_row R 0 Rplus Rmult Reqb ui Ki v vectors acc).
+Proof.
+  intros t ui. induction Ki as [|kij Ki IH]; intros v vectors acc; [reflexivity|].
+  destruct v as [|vj v]; [reflexivity|]. destruct vectors as [|x vectors]; [reflexivity|]. simpl.
+  destruct (Reqb vj 0); [apply IH|].
+  replace (map (fun xl => t * ui * kij * vj * xl) x) with (map (Rmult t) (map (fun xl => ui * kij * vj * xl) x))
+    by (rewrite map_map; apply map_ext; intros; ring).
+  rewrite gvadd_scale. apply IH.
+Qed.
+
+Lemma sink_images_scale : forall t d u K v vectors,
+  sink_images_R d (map (Rmult t) u) K v vectors = map (Rmult t) (sink_images_R d u K v vectors).
+Proof.
+  intros t d u K v vectors. unfold sink_images_R, sink_images. revert K.
+  induction u as [|ui u IH]; intros [|Ki K]; simpl; try reflexivity.
+  rewrite map_app, <- IH. f_equal.
+  replace (repeat 0 d) with (map (Rmult t) (repeat 0 d)) at 1 by (rewrite map_repeat; f_equal; ring).
+  apply sink_image_row_scale.
+Qed.
+
+Lemma chunk_map : forall (f : R -> R) m d l, chunk R m d (map f l) = map (map f) (chunk R m d l).
+Proof.
+  intros f. induction m as [|m IH]; intros d l; [reflexivity|]. simpl. rewrite <- IH, firstn_map, skipn_map. reflexivity.
+Qed.
+
+Theorem sph_post_pos_homogeneous : forall rnd t m d img ys, 0 < t ->
+  sph_post_R rnd m d (map (Rmult t) img) ys = sph_post_R rnd m d img ys.
+Proof.
+  intros rnd t m d img ys Ht. unfold sph_post_R, sph_post. rewrite chunk_map. f_equal.
+  generalize (chunk R m d img) as rows. intros rows. revert ys.
+  induction rows as [|a rows IH]; intros [|y ys]; simpl; try reflexivity. rewrite IH. f_equal.
+  apply sph_block_pos_homogeneous. assumption.
+Qed.
+
+Theorem sinkhorn_row_u_scale : forall rnd t m d u K v vectors ys, 0 < t ->
+  sinkhorn_row_R rnd m d (map (Rmult t) u) K v vectors ys = sinkhorn_row_R rnd m d u K v vectors ys.
+Proof.
+  intros rnd t m d u K v vectors ys Ht. unfold sinkhorn_row_R, sinkhorn_row.
+  pose proof (sink_images_scale t d u K v vectors) as E. unfold sink_images_R in E. rewrite E.
+  apply sph_post_pos_homogeneous. assumption.
+Qed.
+
 (* ================================================================ batched Sinkhorn rows *)
 Section SinkhornRows.
   Variables Item St Row : Type.
